@@ -16,6 +16,7 @@ import (
 	"github.com/free5gc/go-upf/internal/verif/e3host"
 	"github.com/free5gc/go-upf/internal/verif/fworld"
 	"github.com/free5gc/go-upf/internal/verif/pworld"
+	"github.com/free5gc/go-upf/internal/verif/racepass"
 	"github.com/free5gc/go-upf/internal/verif/seqx"
 	"github.com/free5gc/go-upf/internal/verif/sworld"
 	"github.com/free5gc/go-upf/internal/verif/xlate"
@@ -38,6 +39,7 @@ var checks = map[string]func(tier string){
 	"C14": c14.Run,
 	"C15": pworld.Run,
 	"C16": c16.Run,
+	"C17": e3host.RunC17,
 	"C18": e3host.RunC18,
 	"C19": c19.Run,
 	"C20": c20.Run,
@@ -70,6 +72,15 @@ func main() {
 			fmt.Sscan(os.Args[3], &n)
 		}
 		os.Exit(seqx.ReplayMain(os.Args[2], n))
+	case "racepass":
+		n, seed := 50, int64(1)
+		if len(os.Args) > 2 {
+			fmt.Sscan(os.Args[2], &n)
+		}
+		if len(os.Args) > 3 {
+			fmt.Sscan(os.Args[3], &seed)
+		}
+		os.Exit(racepass.Main(n, seed))
 	case "seqx":
 		seqx.WorkerMain(os.Args[2:])
 	default:
